@@ -27,7 +27,7 @@ var c09Histories = []string{
 func init() {
 	Register(&Prop{ID: "C09",
 		Meta: Meta{Stages: 2, Level: "exploration",
-			Rule: "real Client+Serve (net/rpc MuxBroker, gRPC broker, gRPC broker with multiplexing); a history of 1-3 abuse steps drawn from {dial without accept, accept without dial, 2-3 dials to one pending ID, accept issued at the expiry instant (5s +- eps) of a parked connection, late accept, several unmatched IDs, a broker stream opened and closed by the peer after 0-3 of the 4 ID bytes (net/rpc)} issued from either side (plus histories in which the peer is gone altogether: the plugin killed or frozen before Client(), before Dispense or after it, then three unmatched host accepts and dials), then a matched pair on a fresh ID in each direction, a Dispense, and Kill; plus Kill racing a broker operation in flight, one case per go-plugin statement the operation's goroutine passes (profiled in stage 0); fixed matrix (history x side x broker kind) plus seeded histories with schedule noise focused on the brokers; oracle: every unmatched call returns an error within 30s simulated (+ injected delay), the fresh pairs and the Dispense succeed, no panic, 10s after Kill no host goroutine is left in go-plugin broker code"},
+			Rule: "real Client+Serve (net/rpc MuxBroker, net/rpc over AutoMTLS with a 3 s StartTimeout, gRPC broker, gRPC broker with multiplexing); a history of 1-3 abuse steps drawn from {dial without accept, accept without dial, 2-3 dials to one pending ID, accept issued at the expiry instant (5s +- eps) of a parked connection, late accept, several unmatched IDs, a broker stream opened and closed by the peer after 0-3 of the 4 ID bytes (net/rpc)} issued from either side (plus histories in which the peer is gone altogether: the plugin killed or frozen before Client(), before Dispense or after it, then three unmatched host accepts and dials), then a matched pair on a fresh ID in each direction, a Dispense, and Kill; plus Kill racing a broker operation in flight, one case per go-plugin statement the operation's goroutine passes (profiled in stage 0); fixed matrix (history x side x broker kind) plus seeded histories with schedule noise focused on the brokers; oracle: every unmatched call returns an error within 30s simulated (+ injected delay), the fresh pairs and the Dispense succeed, no panic, 10s after Kill no host goroutine is left in go-plugin broker code"},
 		Plan: func(tier string, seed uint64, stage int, prev []*h.Result) []*k.Spec {
 			if stage > 0 {
 				if tier == "selftest" {
@@ -39,7 +39,9 @@ func init() {
 			if tier != "selftest" {
 				out = killRaceSpecs("C09", tier, seed, 0, nil)
 			}
-			for _, kind := range c09Kinds {
+			// (the fourth kind: net/rpc over TLS with a start timeout shorter than
+			// the history - the connection outlives it several times over)
+			for _, kind := range append(append([]map[string]string(nil), c09Kinds...), P("proto", "netrpc", "tls", "auto", "starttimeout", "3s")) {
 				for _, hist := range c09Histories {
 					for _, side := range []string{"host", "plugin"} {
 						eps := []string{"0"}
@@ -47,11 +49,11 @@ func init() {
 							eps = []string{"-2ms", "-1ns", "0", "1ns", "2ms"}
 						}
 						for _, e := range eps {
-							out = append(out, sp("C09", fmt.Sprintf("fixed/%s%s/%s/%s/%s", kind["proto"], kind["mux"], hist, side, e), seed, cp(kind, "hist", hist, "side", side, "eps", e)))
+							out = append(out, sp("C09", fmt.Sprintf("fixed/%s%s%s/%s/%s/%s", kind["proto"], kind["mux"], kind["tls"], hist, side, e), seed, cp(kind, "hist", hist, "side", side, "eps", e)))
 							if len(eps) > 1 {
 								// the same cell with delays woven into the expiry paths of both brokers
 								for v := 0; v < 4; v++ {
-									s := sp("C09", fmt.Sprintf("fixed+delay%d/%s%s/%s/%s/%s", v, kind["proto"], kind["mux"], hist, side, e), seed+uint64(v)*7919, cp(kind, "hist", hist, "side", side, "eps", e))
+									s := sp("C09", fmt.Sprintf("fixed+delay%d/%s%s%s/%s/%s/%s", v, kind["proto"], kind["mux"], kind["tls"], hist, side, e), seed+uint64(v)*7919, cp(kind, "hist", hist, "side", side, "eps", e))
 									s.Focus = "MuxBroker.Accept,MuxBroker.timeoutWait,MuxBroker.Run,GRPCBroker.timeoutWait,GRPCBroker.DialWithOptions,GRPCBroker.knock"
 									s.DelayClass = "tiny"
 									out = append(out, s)
@@ -298,6 +300,9 @@ func runC09(r *h.Run) {
 	kind := c.Proto
 	if c.Mux {
 		kind += "+mux"
+	}
+	if c.TLS == "auto" {
+		kind += "+tls"
 	}
 	const B = 30 * time.Second
 	nextID := uint32(2000)
